@@ -60,6 +60,8 @@ type Contract struct {
 	Line     int
 	Lets     []Clause // `let name = expr` evaluated at entry (ghost abbreviations)
 	MayPanic bool    // `panics` clause present or `maypanic`
+	Logged   bool    // interface method whose invocations are recorded in the ghost trace (user-implementable protocol)
+	ParamNames []string // interface method contracts: names for the (often unnamed) parameters, `func I.M(a, b)`
 	Modifies []string
 }
 
@@ -69,6 +71,7 @@ type SpecFunc struct {
 	Ret     string
 	Body    *Expr
 	Rec     bool
+	Static  bool // may read the heap as it is on entry of the function under verification (arrays that function never writes)
 	PkgPath string
 	File    string
 	Line    int
@@ -105,7 +108,7 @@ type ContractSet struct {
 	Files  []string
 }
 
-var kwRe = regexp.MustCompile(`^(func|pure|axiom|lemma|requires|ensures|panics|loop|decreases|inline|trusted|nopanic|let|maypanic|modifies|use|induct|end)\b`)
+var kwRe = regexp.MustCompile(`^(func|pure|axiom|lemma|requires|ensures|panics|loop|decreases|inline|trusted|nopanic|let|maypanic|modifies|use|induct|logged|end)\b`)
 
 type rawLine struct {
 	text string
@@ -177,7 +180,16 @@ func parseContractLines(lines []rawLine, fname, pkgPath string, cs *ContractSet)
 		switch m {
 		case "func":
 			key := rest
-			cur = &Contract{Key: key, PkgPath: pkgPath, Loops: map[int]*LoopSpec{}, File: fname, Line: s.line}
+			var pnames []string
+			if i := strings.LastIndex(key, "("); i > 0 && strings.HasSuffix(key, ")") && !strings.HasPrefix(key, "(") || (i > 0 && strings.HasSuffix(key, ")") && strings.Count(key, "(") == 2) {
+				for _, n := range strings.Split(key[i+1:len(key)-1], ",") {
+					if n = strings.TrimSpace(n); n != "" {
+						pnames = append(pnames, n)
+					}
+				}
+				key = strings.TrimSpace(key[:i])
+			}
+			cur = &Contract{Key: key, PkgPath: pkgPath, Loops: map[int]*LoopSpec{}, File: fname, Line: s.line, ParamNames: pnames}
 			curLemma = nil
 			if old := cs.Funcs[pkgPath+"::"+key]; old != nil {
 				return fmt.Errorf("%s:%d: duplicate contract for %s", fname, s.line, key)
@@ -311,6 +323,10 @@ func parseContractLines(lines []rawLine, fname, pkgPath string, cs *ContractSet)
 			if cur != nil {
 				cur.NoPanic = true
 			}
+		case "logged":
+			if cur != nil {
+				cur.Logged = true
+			}
 		case "maypanic":
 			if cur != nil {
 				cur.MayPanic = true
@@ -375,9 +391,18 @@ func parseBinders(s string) ([]Binder, error) {
 func parseSpecFunc(s, fname string, line int) (*SpecFunc, error) {
 	sf := &SpecFunc{File: fname, Line: line, Src: s}
 	s = strings.TrimSpace(s)
-	if strings.HasPrefix(s, "rec ") {
-		sf.Rec = true
-		s = strings.TrimSpace(s[4:])
+	for {
+		if strings.HasPrefix(s, "rec ") {
+			sf.Rec = true
+			s = strings.TrimSpace(s[4:])
+			continue
+		}
+		if strings.HasPrefix(s, "static ") {
+			sf.Static = true
+			s = strings.TrimSpace(s[7:])
+			continue
+		}
+		break
 	}
 	if !strings.HasPrefix(s, "func ") {
 		return nil, fmt.Errorf("%s:%d: expected 'pure [rec] func'", fname, line)
